@@ -1,50 +1,18 @@
-"""Per-property configuration of the driver (check.py). Case counts are budgets, never wall-clock limits."""
+"""Collects the per-property driver configuration from checks/<ID>.py (one file per property:
+CHECK = driver config, TEXT = manifest wording). Case counts are budgets, never wall-clock limits."""
+import glob
+import importlib.util
+import os
 
 VFREF = "internal/vfref = snapshot of the pinned sarama sources (reference codec for bodies without an own writer/parser)"
 STD = "Go standard library (hash/crc32, encoding/binary) and the compression libraries sarama itself links"
 
-CHECKS = {
-    "C08": dict(
-        pkg=".",
-        parts=[dict(name="plan", test="TestVF_C08",
-                    quick=dict(shards=4, checks=6000), thorough=dict(shards=16, checks=150000))],
-        rule=("rapid draws a strategy (range/roundrobin/sticky), 1-6 members with drawn ids, subscription sets over 1-4 topics "
-              "(identical / random / disjoint), sorted partition id lists of 1-8 ids (sometimes with holes) and, for sticky, a chain of "
-              "1-6 rebalances (join, leave, subscription change, grow, shrink, topic recreated) whose user data is the previous plan or "
-              "hostile (stale generation, V0, copied from another member, same generation twice, invented partitions, none); the topics "
-              "argument is built as consumerGroup.balance builds it. Oracle: completeness, exclusivity, eligibility, no strangers, no "
-              "error, no panic. Non-trivial: >=2 members with differing subscriptions, or a chain step that changed membership/"
-              "partitions with prior state; distinct = hash of the whole case."),
-        assumptions=["inputs follow consumerGroup.balance: topics = union of subscriptions; round-robin is never handed a topic without subscriber"],
-    ),
-    "C13": dict(
-        pkg=".",
-        parts=[dict(name="chains", test="TestVF_C13",
-                    quick=dict(shards=4, checks=5000), thorough=dict(shards=16, checks=150000)),
-               dict(name="exhaustive", test="TestVF_C13_Exhaustive", own_loop=True,
-                    quick=dict(shards=4, checks=1), thorough=dict(shards=16, checks=1))],
-        exhaustive_counter="exhaustive_small_space_completed",
-        exhaustive_note=("part 'exhaustive' enumerates completely: members<=3 x topics<=2 x partitions<=3 per topic x all non-empty "
-                         "subscription subsets x 3 strategies, and for sticky every one-step successor (same, one leave, one join with "
-                         "each subscription, one subscription change, one partition-count change); part 'chains' is random"),
-        rule=("random part: strategy, up to 12 members / 6 topics / 40 partitions, chains of up to 8 honest rebalances (user data = previous "
-              "plan, increasing generations). Oracles: range contiguity and sizes within 1 per topic; round-robin totals within 1 for "
-              "identical subscriptions; sticky: Kafka balance criterion with subscriptions, fixed point of re-planning, keep-on-leave and "
-              "no-shuffle-on-join for identical subscriptions, no pairwise swap within a topic; C08 validity alongside. Non-trivial: "
-              ">=2 members and >=2 partitions (sticky: a step with prior state); distinct = hash of the case."),
-        assumptions=["stickiness clauses are asserted only for honest chains (every member reports exactly what it was given)"],
-    ),
-}
-
-MANIFEST_TEXT = {
-    "C08": dict(
-        level="Generated-input search: tens of thousands (thorough: millions) of group shapes and sticky rebalance chains, including hostile user data, judged by a validity predicate (complete, exclusive, eligible, no strangers). Holds on everything generated within the stated bounds; absence beyond them is not established.",
-        note="Inputs are built the way consumerGroup.balance builds them; rapid's generators and the harness's own validity predicate are the trusted base.",
-        technique="property-based testing (rapid): random group shapes and rebalance chains, validity-predicate oracle",
-        ref="5.8"),
-    "C13": dict(
-        level="Complete enumeration of the small space (members<=3, topics<=2, partitions<=3, all subscription subsets, all one-step successors for sticky) plus random large shapes and honest rebalance chains, judged by balance and stickiness predicates and a metamorphic fixed-point relation.",
-        note="Stickiness clauses are checked for honest chains only (each member feeds back what it was given); trusted base: rapid, the harness predicates.",
-        technique="property-based testing (rapid) + exhaustive small-space enumeration; predicate and metamorphic (fixed-point) oracles",
-        ref="5.13"),
-}
+CHECKS = {}
+MANIFEST_TEXT = {}
+for _p in sorted(glob.glob(os.path.join(os.path.dirname(os.path.abspath(__file__)), "checks", "C*.py"))):
+    _id = os.path.basename(_p)[:-3]
+    _spec = importlib.util.spec_from_file_location("vfcheck_" + _id, _p)
+    _m = importlib.util.module_from_spec(_spec)
+    _spec.loader.exec_module(_m)
+    CHECKS[_id] = _m.CHECK
+    MANIFEST_TEXT[_id] = _m.TEXT
